@@ -12,7 +12,7 @@ if [ ! -x bin/instrument ] || [ tools/instrument/main.go -nt bin/instrument ] ||
   go build -o bin/instrument ./tools/instrument || { echo "HARNESS-ERROR: instrumenter does not build"; exit 2; }
 fi
 case "$ID" in
-  C14|C15) RULES=r2,r3,r4; MAIN=./harness/cmd/vsched ;;
+  C14|C15) RULES=r2,r3,r4; MAIN=./harness/cmd/vcheck ;;
   *)       RULES=r1,r2,r5,r6; MAIN=./harness/cmd/vcheck ;;
 esac
 REPO="${VERIF_REPO:-/repo}"
